@@ -15,6 +15,7 @@ pub mod c16;
 pub mod c17;
 pub mod c18;
 pub mod c19;
+pub mod c20;
 
 use symcore::Config;
 
@@ -38,6 +39,7 @@ pub fn instances(prop: &str, tier: &str, seed: u64) -> Vec<String> {
         "C17" => c17::instances(tier),
         "C18" => c18::instances(tier),
         "C19" => c19::instances(tier),
+        "C20" => c20::instances(tier),
         _ => vec![],
     }
 }
@@ -78,6 +80,7 @@ fn body_inner(prop: &str, inst: &str) {
         "C17" => c17::body(inst),
         "C18" => c18::body(inst),
         "C19" => c19::body(inst),
+        "C20" => c20::body(inst),
         _ => panic!("unknown property {}", prop),
     }
 }
